@@ -280,4 +280,62 @@ Fixpoint sd_trace (n : nat) (s : vec * bool) : list vec :=
   end.
 End SteepestDescent.
 
+(* ================================================ Douglas-Rachford primal-dual *)
+Section DouglasRachford.
+(* one entry per (L[i], g[i], sigma[i], optional l[i]) *)
+Record drop := mk_drop { dr_L : vec -> vec; dr_Ladj : vec -> vec;
+                         dr_proxg : vec -> vec;            (* g[i].convex_conj.proximal(sigma[i]) *)
+                         dr_proxl : option (vec -> vec);   (* l[i].convex_conj.proximal(sigma[i]) when l is given *)
+                         dr_sigma : T; dr_m : nat }.
+Variables (proxf : vec -> vec) (tau : T) (lam : nat -> T).
+(* L[0].adjoint(v[0], out=acc); for Li, vi in zip(L[1:], v[1:]): acc += Li.adjoint(vi) *)
+Definition dr_adjsum (ops : list drop) (vs : list vec) : option vec :=
+  match ops, vs with
+  | o :: ops', v :: vs' =>
+      Some (fold_left (fun acc ov => vadd acc (dr_Ladj (fst ov) (snd ov))) (combine ops' vs') (dr_Ladj o v))
+  | _, _ => None
+  end.
+(* first half of the loop body: p1 (what the callback sees), w1, and x after x.lincomb(1, x, -lam_k, p1) *)
+Definition dr_half1 (ops : list drop) (k : nat) (x : vec) (vs : list vec) : vec * vec * vec :=
+  let z1 := match dr_adjsum ops vs with
+            | Some a => vlin none_ x (nopp tau / ntwo) a          (* z1.lincomb(1, x, -tau / 2, z1) *)
+            | None => x end in                                    (* z1.assign(x) *)
+  let p1 := proxf z1 in                                           (* f.proximal(tau)(z1, out=p1) *)
+  let w1 := vlin ntwo p1 (nopp none_) x in                        (* w1.lincomb(2, p1, -1, x) *)
+  let x1 := vlin none_ x (nopp (lam k)) p1 in                     (* x.lincomb(1, x, -lam_k, p1) *)
+  (p1, w1, x1).
+Definition dr_half2 (ops : list drop) (k : nat) (w1 x1 : vec) (vs : list vec) : vec * list vec :=
+  let p2s := map (fun ov => dr_proxg (fst ov)
+                   (vlin none_ (snd ov) (dr_sigma (fst ov) / ntwo) (dr_L (fst ov) w1))) (combine ops vs) in
+  let w2s := map (fun pv => vlin ntwo (fst pv) (nopp none_) (snd pv)) (combine p2s vs) in   (* 2 p2 - v *)
+  let p1 := match dr_adjsum ops w2s with Some a => a | None => map (fun _ => nzero) x1 end in   (* p1.set_zero() *)
+  let z1 := vlin none_ w1 (nopp tau / ntwo) p1 in                 (* z1.lincomb(1, w1, -tau / 2, p1) *)
+  let x2 := vlin none_ x1 (lam k) z1 in                           (* x.lincomb(1, x, lam_k, z1) *)
+  let p1 := vlin ntwo z1 (nopp none_) w1 in                       (* p1.lincomb(2, z1, -1, w1) *)
+  let vs' := map (fun t =>
+      let '(o, w2, p2, v) := t in
+      let z2 := vlin none_ w2 (dr_sigma o / ntwo) (dr_L o p1) in  (* z2i.lincomb(1, w2[i], sigma[i] / 2, L[i](p1)) *)
+      let z2 := match dr_proxl o with Some pl => pl z2 | None => z2 end in
+      let v1 := vlin none_ v (lam k) z2 in                        (* v[i].lincomb(1, v[i], lam_k, z2i) *)
+      vlin none_ v1 (nopp (lam k)) p2)                            (* v[i].lincomb(1, v[i], -lam_k, p2[i]) *)
+    (combine (combine (combine ops w2s) p2s) vs) in
+  (x2, vs').
+(* a full (non-final) iteration *)
+Definition dr_step (ops : list drop) (k : nat) (s : vec * list vec) : vec * list vec :=
+  let '(x, vs) := s in
+  let '(p1, w1, x1) := dr_half1 ops k x vs in dr_half2 ops k w1 x1 vs.
+Definition dr_p1 (ops : list drop) (k : nat) (s : vec * list vec) : vec :=
+  let '(p1, _, _) := dr_half1 ops k (fst s) (snd s) in p1.
+Definition dr_init (ops : list drop) (x : vec) : vec * list vec := (x, map (fun o => vzero (dr_m o)) ops).
+(* callbacks of a run with niter iterations: p1 of iteration k = 0 .. niter-1 *)
+Fixpoint dr_trace (ops : list drop) (n k0 : nat) (s : vec * list vec) : list vec :=
+  match n with O => [] | S n' => dr_p1 ops k0 s :: dr_trace ops n' (S k0) (dr_step ops k0 s) end.
+(* what the call leaves in x: p1 of the last iteration (k == niter - 1: x.assign(p1); return) *)
+Definition dr_run (ops : list drop) (n : nat) (x : vec) : vec :=
+  match n with
+  | O => x
+  | S n' => dr_p1 ops n' (iterk n' 0 (dr_step ops) (dr_init ops x))
+  end.
+End DouglasRachford.
+
 End Solvers.
